@@ -30,6 +30,8 @@ def run(rep):
     scalechecks.dtcwt(rep, "C06", rep.tier, "vjp")          # large inputs (size thresholds)
     from .. import autogradchecks
     autogradchecks.regimes(rep, "C06", autogradchecks.dtcwt_cases(), "C06: two calls before one backward, second backward, unused outputs")
+    hs = autogradchecks.tape_histories(rep, rep.tier)
+    autogradchecks.tape_replay(rep, "C06", autogradchecks.dtcwt_cases(), hs, 12 if rep.tier == "quick" else 120)
     rep.assumptions += ["the identities of the shipped tables (C18) are the premise of adjointness; user-supplied filters "
                         "that violate them are outside the property"]
 
